@@ -174,7 +174,7 @@ def form_xobject(content, names):
     return W.Stream(d, content)
 
 
-ABBR_KEY = {"Width": "W", "Height": "H", "BitsPerComponent": "BPC", "ColorSpace": "CS", "Filter": "F"}
+ABBR_KEY = {"Width": "W", "Height": "H", "BitsPerComponent": "BPC", "ColorSpace": "CS", "Filter": "F", "ImageMask": "IM"}
 ABBR_CS = {"DeviceGray": "G", "DeviceRGB": "RGB"}
 ABBR_FILTER = {"ASCIIHexDecode": "AHx", "ASCII85Decode": "A85", "LZWDecode": "LZW", "FlateDecode": "Fl",
                "RunLengthDecode": "RL", "DCTDecode": "DCT"}
@@ -185,6 +185,8 @@ def inline_image_bytes(im, rnd):
     abbr = im["abbr"]
     pairs = [("Width", b"%d" % im["w"]), ("Height", b"%d" % im["h"]), ("BitsPerComponent", b"%d" % kind_bits(im["kind"])),
              ("ColorSpace", b"/" + im["cs_written"].encode())]
+    if im.get("mask"):
+        pairs = pairs[:2] + ([pairs[2]] if im["mask"] == "bpc" else []) + [("ImageMask", b"true")]
     if im["chain"]:
         names = [b"/" + (ABBR_FILTER[f] if im["abbr_filter"] else f).encode() for f in im["chain"]]
         pairs.append(("Filter", names[0] if len(names) == 1 and im["single_name"] else b"[" + b" ".join(names) + b"]"))
@@ -389,6 +391,10 @@ def _check_inline(case, classes, nt):
         except Exception as e:
             return Outcome(classes, nt, fail="%s: attributes unreadable: %s: %s" % (where, type(e).__name__, e))
         exp = ((w["w"], w["h"]), kind_bits(w["kind"]), [w["cs_written"]])
+        if w.get("mask"):
+            if not im.imagemask:
+                return Outcome(classes, nt, fail="%s: written as a stencil mask, LTImage.imagemask is %r" % (where, im.imagemask))
+            attrs, exp = attrs[:2], exp[:2]
         if attrs != exp:
             return Outcome(classes, nt, fail="%s: (srcsize, bits, colorspace) = %r, written %r" % (where, attrs, exp))
     if chars != chars0:
@@ -478,6 +484,9 @@ def image_def(draw, rnd, inline, adversarial=False):
         im["abbr_filter"] = draw(st.booleans()) if draw(st.booleans()) else im["abbr"]  # Table 94 value abbreviations
         im["abbr_cs"] = draw(st.booleans()) if draw(st.booleans()) else im["abbr"]
         im["ws_after_id"] = draw(st.sampled_from(WS_AFTER_ID))
+        if kind == "gray1" and draw(st.integers(0, 2)) == 0:
+            # a stencil mask: /ImageMask (IM) true, no colour space, /BitsPerComponent optional (1 by definition)
+            im["mask"] = draw(st.sampled_from(["bpc", "nobpc", "nobpc"]))
         eol = draw(st.sampled_from(EOLS))
         if adversarial and im["fmt"] == "bmp":
             d = bytearray(data)
@@ -761,7 +770,9 @@ def inline_cases(draw):
             classes.add("inline-image-in-later-stream")
             nt = True
     inl = [{"kind": im["kind"], "w": im["w"], "h": im["h"], "data": im["data"], "eol": im["eol"], "chain": im["chain"],
-            "cs_written": im["cs_written"]} for im in images]
+            "cs_written": im["cs_written"], "mask": im.get("mask")} for im in images]
+    if any(im.get("mask") for im in images):
+        classes.add("inline-stencil-mask")
     classes.add("inline-images:%d" % nimg)
     return {"mode": "inline", "pdf": doc(parts if parts is not None else content), "pdf_plain": doc(plain), "content": content, "inline": inl,
             "nglyphs": nglyphs, "bufsiz": bufsiz, "classes": sorted(classes), "nt": nt,
